@@ -42,16 +42,41 @@ def run_tlc_parallel(jobs):
     return out
 
 
-def corpus(ctx, r, label):
+def iter_cases(out):
+    """cases printed by PrintT(ToJson(x)), streamed (the thorough corpus is > 100 MB of text)"""
+    pos = 0; n = len(out)
+    while pos < n:
+        end = out.find("\n", pos)
+        if end < 0: end = n
+        if end - pos > 2 and out[pos] == '"':
+            line = out[pos:end].rstrip()
+            if line.endswith('"'):
+                try: yield json.loads(json.loads(line))
+                except ValueError: pass
+        pos = end + 1
+
+
+def check_tlc(ctx, r, label):
     ctx.tlc_stats(r, label)
     if r.rc != 0:
         raise common.Infra("reference algebra failed inside TLC for %s (spec bug, not a code verdict): %s\n%s"
                            % (label, r.violation, r.out[-3000:]))
-    cases = common.tlc_printed_json(r.out)
-    if len(cases) != r.distinct or r.generated != r.distinct:
-        raise common.Infra("corpus emission lost/duplicated cases in %s: %d printed, %d generated, %d distinct"
-                           % (label, len(cases), r.generated, r.distinct))
-    return cases
+    if r.generated != r.distinct:
+        raise common.Infra("generator %s is not a tree: %d generated, %d distinct" % (label, r.generated, r.distinct))
+
+
+def check_count(n, r, label):
+    if n != r.distinct:
+        raise common.Infra("corpus emission lost/duplicated cases in %s: %d printed, %d distinct" % (label, n, r.distinct))
+
+
+def chunks(it, k):
+    buf = []
+    for x in it:
+        buf.append(x)
+        if len(buf) >= k:
+            yield buf; buf = []
+    if buf: yield buf
 
 
 def text_bytes(s):
@@ -72,7 +97,7 @@ def start_lines(ctx, exe, cases, fails, seen):
     for c, ln, a in zip(cases, lines, res):
         fn = "http_parse_req_line" if c["kind"] == "req" else "http_parse_resp_line"
         shape = c["shape"]; e = c["expect"]; n = len(c["text"])
-        ctx.add(evaluations=1); seen.add(ln)
+        ctx.add(evaluations=1); seen.add(hash(ln))
         rp = {"driver_line": ln, "text": c["text"], "expect": e}
         if isinstance(a, dict):
             k = a["crash"]; fails.add("%s:%s:%s:%s" % (fn, shape, k[0], k[1]), a["raw"], rp); continue
@@ -124,9 +149,9 @@ def render(c, method_alt, tail):
     return bytes(b) + text_bytes(tail)
 
 
-def header_blocks(ctx, exe, cases, fails, seen, stats):
+def header_blocks(ctx, exe, cases, fails, seen, stats, base=0):
     lines = []; meta = []
-    for i, c in enumerate(cases):
+    for i, c in enumerate(cases, base):
         qs = ",".join(sorted(c["look"])) if c["look"] else ""
         tails = c["tails"]
         for tail in tails:                       # GET, every terminator tail, with lookups
@@ -135,7 +160,7 @@ def header_blocks(ctx, exe, cases, fails, seen, stats):
         lines.append("hdr %s" % hexs(render(c, True, tail))); meta.append((c, True, tail))
     res = common.batch_run(exe, lines, timeout=1200)
     for ln, (c, alt, tail), a in zip(lines, meta, res):
-        ctx.add(evaluations=1); seen.add(ln)
+        ctx.add(evaluations=1); seen.add(hash(ln))
         method = c["alt"] if alt else "GET"
         rej = c["rejPut"] if alt else c["rejGet"]
         pats = c["patPut"] if alt else c["patGet"]
@@ -228,41 +253,55 @@ def run(ctx):
 
     fails = Fails(); seen = set()
     stats = {"acc": 0, "rej": 0, "lookups": 0, "lookups_hit": 0}
-    start_cases = []; hdr_cases = []
+    taken_by = {}                       # (module, action) -> times taken over all runs of that module
     for label, r in results.items():
-        cs = corpus(ctx, r, label)
-        (start_cases if label.startswith("GenHttpStart") else hdr_cases).extend(cs)
-
-    # vacuity: every generator action / grammar alternative / pattern is present in the corpus
-    forms = {c["form"] for c in start_cases}
-    eds = {c["ed"] for c in hdr_cases}
-    need_forms = {"origin", "absolute", "authority", "asterisk", "status"}
-    if forms != need_forms or eds != {"none", "ctl", "sp", "ins"}:
-        raise common.Infra("vacuous corpus: forms=%s edits=%s" % (forms, eds))
-    for label, r in results.items():
+        check_tlc(ctx, r, label)
         for act, (taken, gen) in r.coverage.items():
-            if taken == 0: raise common.Infra("action %s of %s never taken" % (act, label))
+            k = (label.split("/")[0], act); taken_by[k] = taken_by.get(k, 0) + taken
+    for k, v in taken_by.items():
+        if v == 0: raise common.Infra("action %s of %s never taken" % (k[1], k[0]))
 
+    # ---- start lines
+    start_cases = []
+    for label, r in results.items():
+        if label.startswith("GenHttpStart"):
+            cs = list(iter_cases(r.out)); check_count(len(cs), r, label); start_cases += cs
+    forms = {c["form"] for c in start_cases}
+    if forms != {"origin", "absolute", "authority", "asterisk", "status"}:
+        raise common.Infra("vacuous corpus: start-line forms=%s" % forms)
     start_lines(ctx, exe, start_cases, fails, seen)
     ctx.log("start lines compared: %d" % len(start_cases))
-    header_blocks(ctx, exe, hdr_cases, fails, seen, stats)
-    ctx.log("header blocks compared: %d cases" % len(hdr_cases))
+
+    # ---- header blocks (streamed in chunks)
+    eds = {}; nhdr = 0; samples_h = []
+    for label, r in results.items():
+        if not label.startswith("GenHttpHdr"): continue
+        n = 0
+        for chunk in chunks(iter_cases(r.out), 20000):
+            for c in chunk: eds[c["ed"]] = eds.get(c["ed"], 0) + 1
+            header_blocks(ctx, exe, chunk, fails, seen, stats, base=n)
+            if not samples_h: samples_h = [chunk[len(chunk) // 5], chunk[-1]]
+            n += len(chunk)
+        check_count(n, r, label); nhdr += n
+        r.out = ""                      # release the text
+    if set(eds) != {"none", "ctl", "sp", "ins"}:
+        raise common.Infra("vacuous corpus: edit kinds=%s" % eds)
+    ctx.log("header blocks compared: %d cases" % nhdr)
     missing = [p for p in PATTERNS if not stats.get(p)]
     if missing or not stats["acc"] or not stats["rej"] or not stats["lookups_hit"]:
         raise common.Infra("vacuous corpus: patterns never generated %s, stats %s" % (missing, stats))
     fails.flush(ctx)
 
     ctx.add(distinct_nontrivial=len(seen),
-            start_line_cases=len(start_cases), header_block_cases=len(hdr_cases),
-            header_blocks_well_formed=sum(1 for c in hdr_cases if c["ed"] == "none"),
-            single_edit_cases=sum(1 for c in hdr_cases if c["ed"] != "none"),
+            start_line_cases=len(start_cases), header_block_cases=nhdr,
+            header_blocks_well_formed=eds["none"], single_edit_cases=nhdr - eds["none"],
+            single_edits_by_kind={k: v for k, v in eds.items() if k != "none"},
             verdicts_expected_accept=stats["acc"], verdicts_expected_reject=stats["rej"],
             pattern_occurrences={p: stats.get(p, 0) for p in PATTERNS},
             lookups_compared=stats["lookups"], lookups_with_match=stats["lookups_hit"])
     def sample(c):
         return {"text": c["text"], "expect": c.get("expect", {"reject_GET": c.get("rejGet"), "look": c.get("look")})}
-    ctx.add(samples=[sample(start_cases[len(start_cases) // 3]), sample(start_cases[-1]),
-                     sample(hdr_cases[len(hdr_cases) // 5]), sample(hdr_cases[-1])])
+    ctx.add(samples=[sample(start_cases[len(start_cases) // 3]), sample(start_cases[-1])] + [sample(c) for c in samples_h])
     ctx.cov["rule"] = ("cases are the reachable states of the generator specs: start lines from the RFC 7230/3986 grammar "
                        "sets of GenHttpStart(T); all header blocks of <= 3 fields over the field alphabet in every order; "
                        "all single smuggling edits of accepted blocks. Every case is non-trivial (a well-formed line or a "
